@@ -40,6 +40,15 @@ def run(ctx):
             # consumes bytes any other way behaves differently when a chunk happens to start where it applies (S5)
             scanner.rule_S5(sc, rep)
             scanner.rule_S6(sc, rep)
+            # the two phases agree on what a printable byte is (S3: the take phase keeps only what the table calls printable, S4: the
+            # skip phase drops only what it does not) — a byte that is kept in the middle of a run but skipped at the start of a chunk
+            # makes the output depend on where the chunk was cut
+            # (the decoder-driven path `*state == Utf8` keeps whatever completes the character in either phase — that is C01's
+            # question and its recorded finding, and does not depend on the cut)
+            import core
+            both = core.Filtered(rep, lambda rule, anchor, instance: not instance.replace(" ", "_").startswith("take:((Deref_$state)_Eq_State::Utf8)"))
+            scanner.rule_S3(sc, both)
+            scanner.rule_S4(sc, both)
         rep.guarded("carry", scanner.MOD + name, scan)
     rep.guarded("owned-state", "anstream::adapter", lambda: rule_owned(facts, rep))
     rep.guarded("same-start", "anstream::adapter", lambda: rule_same_start(facts, rep))
@@ -56,7 +65,7 @@ def run(ctx):
     # what the styles are) the runs would depend on where a chunk ends, since the end of a chunk flushes the pending text too
     from rules import C07
     rep.guarded("emit", C07.FN + "csi_dispatch", lambda: C07.rule_emit(facts, rep))
-    for r, n in (("S1", 7), ("S2", 8), ("owned-state", 9), ("same-start", 6), ("byte-at-a-time", 6), ("W1", 4), ("through", 7), ("who-writes", 3), ("S5", 12), ("S6", 5), ("between-slices", 1), ("emit", 9)):
+    for r, n in (("S1", 7), ("S2", 8), ("owned-state", 9), ("same-start", 6), ("byte-at-a-time", 6), ("W1", 4), ("through", 7), ("who-writes", 3), ("S5", 12), ("S6", 5), ("S3", 2), ("S4", 3), ("between-slices", 1), ("emit", 9)):
         rep.floor(r, n)
 
 
